@@ -763,6 +763,8 @@ def concretise_value(st, v, m):
                 out.append(s)
             elif isinstance(s, Chunk):
                 n = ev(s.len).as_long()
+                if n > (1 << 22):
+                    return {'__abstract__': 'bytes of %d octets' % n}
                 valid = z3.is_true(ev(sym.utf8_valid(s.t)))
                 out.extend((b'a' if valid else b'\xff') * max(0, min(n, 1 << 20)))
             else:
@@ -771,6 +773,8 @@ def concretise_value(st, v, m):
     if isinstance(v, SStr):
         n = ev(sym.nchars(v.t)).as_long()
         L = ev(sym.blen(sym.utf8(v.t))).as_long()
+        if n > 2000000 or L > 8000000:
+            return {'__abstract__': 'str of %d characters' % n}      # not worth materialising for a replay
         enc = z3.is_true(ev(sym.encodable(v.t)))
         return build_string(n, L, enc)
     if isinstance(v, SObj):
